@@ -137,16 +137,7 @@ func (st *httpEngState) doPlug(tok []string) string {
 	} else {
 		sb.WriteString("nobackend")
 	}
-	have := map[string]bool{}
-	for _, kv := range spec.hdr {
-		have[http.CanonicalHeaderKey(kv[0])] = true
-	}
-	star := map[string]bool{}
-	for _, k := range []string{"Date", "Content-Type"} {
-		if seen == nil || !have[k] {
-			star[k] = true
-		}
-	}
+	star := httpEngKnownVals(spec, seen != nil, nil)
 	uh := map[string][]string(resp.Header.Clone())
 	delete(uh, "Connection")
 	fr := "no"
